@@ -16,15 +16,12 @@ Definition tbl_valid (t : list (string * bool)) (pat : string) : bool :=
   match find (fun e => String.eqb pat (fst e)) t with Some e => snd e | None => true end.
 
 Definition with_flag (i : nat) (q : pquirks) : pquirks :=
-  match i with
-  | 0 => Build_pquirks false (q_prefix_without_separator q) (q_path_relative_to_cwd q) (q_allow_dict_unsupported q)
-  | 1 => Build_pquirks (q_global_on_covered q) false (q_path_relative_to_cwd q) (q_allow_dict_unsupported q)
-  | 2 => Build_pquirks (q_global_on_covered q) (q_prefix_without_separator q) false (q_allow_dict_unsupported q)
-  | _ => Build_pquirks (q_global_on_covered q) (q_prefix_without_separator q) (q_path_relative_to_cwd q) false
-  end.
+  let off (k : nat) (b : bool) := if i =? k then false else b in
+  Build_pquirks (off 0 (q_global_on_covered q)) (off 1 (q_prefix_without_separator q)) (off 2 (q_path_relative_to_cwd q))
+                (off 3 (q_allow_dict_unsupported q)) (off 4 (q_trailing_slash_depth q)).
 
 (* candidates: the claimed vector, the claimed vector with one flag switched off, the ideal *)
-Definition candidates (q : pquirks) : list pquirks := q :: map (fun i => with_flag i q) [0;1;2;3] ++ [ideal].
+Definition candidates (q : pquirks) : list pquirks := q :: map (fun i => with_flag i q) [0;1;2;3;4] ++ [ideal].
 
 (* what the harness observed: a ValueError with its text, a swallowed internal failure, or the violations *)
 Inductive ioutcome := IRejected (msg : string) | ICrashed | IReports (l : list rep).
